@@ -607,6 +607,7 @@ struct HistHarness : Harness {
 		if (plan.has("ops")) for (size_t i = 0; i < plan["ops"].size(); i++) {
 			const Json &op = plan["ops"].a[i];
 			if (op.has("fault")) { Json c = plan; c["ops"].a[i].erase("fault"); out.push_back(c); }
+			if (op.has("nfault")) { Json c = plan; c["ops"].a[i].erase("nfault"); out.push_back(c); if (op["nfault"].geti("at") > 0) { Json c2 = plan; c2["ops"].a[i]["nfault"]["at"] = Json(0); out.push_back(c2); } }
 			if (op.has("src") && op["src"].has("damage") && op["src"]["damage"].gets("c") != "truncate") {
 				Json c = plan; Json d = Json::object(); d["c"] = Json("truncate"); d["len"] = Json(100); c["ops"].a[i]["src"]["damage"] = d; out.push_back(c);
 			}
